@@ -1242,3 +1242,24 @@ pub fn two_filled_vecs_panics(a: &[u8], b: &[u8]) -> u8 {
     }
     0
 }
+
+// `s.get(i)` being Some bounds i
+pub fn get_some_then_index_safe(s: &[u8], i: usize) -> u8 {
+    if s.get(i).is_some() {
+        return s[i];
+    }
+    0
+}
+pub fn get_some_other_slice_panics(s: &[u8], o: &[u8], i: usize) -> u8 {
+    if s.get(i).is_some() {
+        return o[i];
+    }
+    0
+}
+pub fn get_some_after_truncate_panics(mut v: Vec<u8>, i: usize) -> u8 {
+    if v.get(i).is_some() {
+        v.clear();
+        return v[i];
+    }
+    0
+}
